@@ -201,4 +201,20 @@ CLAIMS = {
         'technique': 'static analysis: exception-edge CFG, symtable-based name/attribute/arity resolution over the '
                      'TIFA packages, table well-formedness, decision table of the cache (ast + symtable only)',
     },
+    'C13': {
+        'text': "An ownership/effect analysis of process-lifetime state. A whole-program inventory finds every run-time "
+                "mutation of a module-level or class-level mutable object (container mutation, subscript store, "
+                "global rebinding, setattr(cls)); each object must be in a frozen, reasoned triage table whose "
+                "disposition is re-verified on every run (reset reachable from Report.clear()/a tool reset, "
+                "import-time-only registry, paired push/pop, idempotent registration), so new leaked state is a "
+                "violation. Report.clear() must reset every attribute Report.__init__ creates (transitively); tool "
+                "data is reset lazily and every registered reset replaces its dict; every environment reaches a "
+                "clear before contextualising (CFG); override backup/restore incl. the own-namespace rule; no "
+                "randomness or clock feeds the result.",
+        'note': _NOTE + "Known findings: Feedback._pools, the two score_maximum module globals, random pool choice. "
+                        "Not decided: state held by third-party modules and instructor scripts; equality of output "
+                        "text beyond absence of leaked state.",
+        'technique': 'static analysis: whole-program effect inventory with a verified ownership table, sibling '
+                     'agreement __init__/clear, CFG must-pass-through for entry points (ast only)',
+    },
 }
